@@ -473,6 +473,82 @@ theorem step_accept_ids {f f' : Forest} (op : Op) (n : Id) (hs : step f op n = .
       obtain ⟨y, hy, e⟩ := mem_ids.mp hx
       exact mem_ids.mpr ⟨y, (mem_removeSubtree.mp hy).1, e⟩
 
+/-- The exact list of live crates after an accepted operation. -/
+theorem step_accept_ids_eq {f f' : Forest} (op : Op) (n : Id) (hs : step f op n = .accept f') :
+    f'.ids = (match op with
+      | .createRoot _ | .createSub _ _ => f.ids ++ [n]
+      | .rename _ _ | .setParent _ _ => f.ids
+      | .remove c => f.ids.filter (fun x => !(x == c || f.isAncestor c x))) := by
+  cases op with
+  | createRoot nm =>
+    simp only [step] at hs
+    split at hs
+    · simp at hs
+    · split at hs
+      · simp at hs
+      · simp only [Verdict.accept.injEq] at hs
+        subst hs
+        simp [ids]
+  | createSub p nm =>
+    simp only [step] at hs
+    split at hs
+    · simp at hs
+    · split at hs
+      · simp at hs
+      · split at hs
+        · simp at hs
+        · simp only [Verdict.accept.injEq] at hs
+          subst hs
+          simp [ids]
+  | rename c nm =>
+    simp only [step] at hs
+    split at hs
+    · simp at hs
+    · split at hs
+      · simp at hs
+      · split at hs
+        · simp at hs
+        · simp only [Verdict.accept.injEq] at hs
+          subst hs
+          exact ids_setNameOf _ _ _
+  | setParent c p =>
+    have key : ∀ g, f' = setParentOf f c g → f'.ids = f.ids := by
+      intro g e; rw [e, ids_setParentOf]
+    simp only [step] at hs
+    split at hs
+    · simp at hs
+    · cases p with
+      | none =>
+        simp only at hs
+        split at hs
+        · split at hs
+          · simp at hs
+          · simp only [Verdict.accept.injEq] at hs
+            exact key _ hs.symm
+        · simp at hs
+      | some q =>
+        simp only at hs
+        split at hs
+        · simp at hs
+        · split at hs
+          · simp at hs
+          · split at hs
+            · simp at hs
+            · split at hs
+              · split at hs
+                · simp at hs
+                · simp only [Verdict.accept.injEq] at hs
+                  exact key _ hs.symm
+              · simp at hs
+  | remove c =>
+    simp only [step] at hs
+    split at hs
+    · simp at hs
+    · simp only [Verdict.accept.injEq] at hs
+      subst hs
+      simp only [ids, removeSubtree, List.filter_map]
+      rfl
+
 /-- Every `accept` verdict leads to a well-formed forest (the new id of a creation being fresh and positive). -/
 theorem step_accept_wf {f f' : Forest} (h : Wf f) (op : Op) (n : Id) (hnew : op.isCreate = true → n ∉ f.ids ∧ 0 < n)
     (hs : step f op n = .accept f') : Wf f' := by
